@@ -200,6 +200,10 @@ def check(ctx):
                        nontrivial=False)
     check_names(ctx)
     check_lookup_keys(ctx)
+    # clusters keep their identity between the stages only if the tree
+    # code never files a node under its label alone (rule of C10)
+    from .C10 import check_node_identity
+    check_node_identity(ctx, ('taxonomy.',), floor=3)
     check_count_denominators(ctx)
     # the centroid statement presupposes that the statistics file holds
     # the true cluster sums: the merge of the worker buffers adds each
